@@ -6,8 +6,47 @@ ID = "C17"
 LEVEL = "other"
 LEAN_IMPORTS = ["WM.Props.C17"]
 THEOREMS = ["WM.C17.positions", "WM.C17.offsets", "WM.C17.mode_agree_chain", "WM.C17.mode_agree_ngrams",
-            "WM.C17.findable", "WM.C17.findable_chain", "WM.C17.findable_ngramwords", "WM.C17.highlight"]
-PARTIAL = {}
+            "WM.C17.findable", "WM.C17.findable_chain", "WM.C17.findable_ngramwords", "WM.C17.highlight",
+            "WM.C17.findable_postings", "WM.C17.findable_postings_chain", "WM.C17.findable_postings_ngramwords"]
+_MODELLED = (
+    "holds for the modelled components only: regular-expression tokenizers (default pattern, space- and "
+    "comma-separated), IDTokenizer, NgramTokenizer and the Lowercase/Strip/Pass/Stop/Ngram/BiWord filters - not "
+    "'all shipped analyzers/filters': stemmers, intraword/compound/shingle/tee/multi/metaphone/charset/delimited "
+    "components and the language analyzers are decided by the end-to-end relation test only (exploration)")
+PARTIAL = {
+    "WM.C17.positions": _MODELLED + "; stated for a .regex tokenizer followed by Lowercase/Strip/Pass/Stop filters "
+                        "(ngram and biword chains also preserve offsets but are not covered by the theorem)",
+    "WM.C17.offsets": _MODELLED + "; stated for a .regex tokenizer followed by Lowercase/Strip/Pass/Stop filters",
+    "WM.C17.mode_agree_chain":
+        "true by construction of the model: `runFilter` ignores `mode` for every filter but the n-gram ones and "
+        "`removestops` is a constant of the filter, not a per-call flag. The property's risk - a shipped filter that "
+        "behaves differently per mode, or index and query calls with different removestops - is excluded by the model, "
+        "not proved; it is only correspondence-tested (real tokens in both modes, with and without removestops, "
+        "against the model on every run) and relation-tested end to end. " + _MODELLED,
+    "WM.C17.mode_agree_ngrams": _MODELLED,
+    "WM.C17.findable":
+        "a statement about the token list (`termMatches`/`phraseMatches` are defined on it): it does not reach the "
+        "observable search(Term/And/Phrase). `findable_postings*` carry it to the posting lists C10 specifies "
+        "(`WM.Codec.specPostings`); from posting lists to matching documents is C01's denotation of Term/And/Phrase "
+        "and is not composed here - the end-to-end run checks the observable (own tokens, query-time conjunction, "
+        "parser term, consecutive-position phrases all find the document) for every shipped analyzer",
+    "WM.C17.findable_chain": "see findable; mode-free chains of modelled components only",
+    "WM.C17.findable_ngramwords": "see findable; modelled NgramFilter chains only",
+    "WM.C17.findable_postings":
+        "reaches C10's specification of the posting lists (which C10 proves the codec stores and reads back), under "
+        "the hypothesis that the posting writer receives exactly the analysed tokens (`hix`; stop-word removal and "
+        "the per-field token boosts of SegmentWriter.add_document are not modelled here); the step from posting lists "
+        "to search results (C01) is not composed",
+    "WM.C17.findable_postings_chain": "see findable_postings; mode-free chains of modelled components only",
+    "WM.C17.findable_postings_ngramwords": "see findable_postings; modelled NgramFilter chains only",
+    "WM.C17.highlight":
+        "covers Formatter.format_fragment only: the excerpt without markup is one slice of the text and every marked "
+        "span is text[startchar:endchar] of one of the *supplied* matches `ms`. Nothing ties `ms` to the query's terms: "
+        "the fragmenters, Highlighter._merge_matched_tokens, re-tokenisation, GenshiFormatter.format_fragment, the "
+        "`startchar is None` skip and highlight_hit's filtering of matched_terms() by field are not modelled; the half "
+        "'marked spans are matched query terms' is only relation-tested end to end (5 fragmenters x 3 formatters, and a "
+        "multi-field stream with terms=True/False)",
+}
 RULE = ("case = (analyzer or field type, text); texts are generated from a multi-script pool (plain/stop words, "
         "dots/underscores/hyphens, digits, accented/CJK/RTL/astral characters, URLs, very long and one-letter "
         "tokens, boost syntax) glued with varied separators; non-trivial = the index-time analysis yields at "
@@ -27,6 +66,8 @@ def _work(args):
     from whoosh.query import QueryError
     import html
     out = {"kind": kind, "name": name, "cases": [], "viol": []}
+    import time
+    out["t0"] = time.time()
 
     def viol(sig, text, expected, observed, desc=""):
         out["viol"].append((sig, {"analyzer": name, "kind": kind, "text": text}, expected, observed, desc))
@@ -145,6 +186,14 @@ def _work(args):
                             break
                     # query-time analysis of the same text
                     qwords = list(field.process_text(text, mode="query"))
+                    # each distinct token once, at most 300 of them: And builds a left-deep chain of
+                    # IntersectionMatchers (one level per clause), ~1000 clauses exhaust the recursion
+                    # limit; QueryParser output is normalized (duplicates merged) anyway
+                    qwords = sorted(set(qwords))[:300]
+                    if words and not qwords:
+                        viol("findable:query-time-no-tokens", text, "query-time tokens", [],
+                             "the text yields tokens at index time (%r...) but none under query-time analysis: "
+                             "the query built from the document's own text is empty" % words[:3])
                     if qwords and not matches(query.And([query.Term(fname, x) for x in qwords]), ti):
                         missing = [x for x in qwords if not matches(query.Term(fname, x), ti)]
                         viol("findable:query-time-conjunction", text, "And(query-time tokens) matches",
@@ -156,13 +205,19 @@ def _work(args):
                         parser_cache[fname] = qparser.QueryParser(fname, schema)
                     qp = parser_cache[fname]
                     pieces = [text]
-                    if kind == "analyzer" and onepos and rel in ("exact", "lower"):
-                        # word-by-word analyzers: also every single source word, as a user would type it
-                        pieces += [text[t[2]:t[3]] for t in itoks[:6] if t[2] is not None]
+                    if kind == "analyzer" and onepos and name not in A.NO_CHARS:
+                        # word-by-word analyzers: also single source words, as a user would type them
+                        # (the first, the last and some in between: a word must be analysed the same
+                        # way wherever it stands in the text)
+                        srcs = [text[t[2]:t[3]] for t in itoks if t[2] is not None and t[3] > t[2]]
+                        pieces += srcs[:4] + srcs[-2:]
                     for piece in pieces:
                         q = qp.term_query(fname, piece, query.Term)
                         if q is None or (hasattr(q, "subqueries") and not q.subqueries):
                             continue   # no tokens: the empty conjunction claims nothing
+                        q = q.normalize()   # as parse() does: merges the duplicate clauses
+                        if hasattr(q, "subqueries") and len(q.subqueries) > 300:
+                            continue   # see above: one matcher level per clause
                         try:
                             okm = matches(q, ti)
                         except QueryError:
@@ -175,13 +230,19 @@ def _work(args):
                     # phrases of consecutive positions
                     if field.format is not None and field.format.supports("positions") and len(itoks) >= 2:
                         bypos = {}
+                        freq = {}
                         for t in A.capture(field.analyzer, text, positions=True, chars=True, mode="index"):
                             bypos.setdefault(t[1], t[0])
+                            freq[t[0]] = freq.get(t[0], 0) + 1
                         ps = sorted(bypos)
                         runs = 0
                         for a in range(len(ps) - 1):
                             for k in (2, 3):
                                 run = ps[a:a + k]
+                                if any(freq[bypos[x]] > 12 for x in run):
+                                    # a phrase of words that each occur very often ("abababab...") makes
+                                    # the span matcher enumerate a quadratic number of spans: minutes
+                                    continue
                                 if len(run) == k and all(y == x + 1 for x, y in zip(run, run[1:])):
                                     q = query.Phrase(fname, [bypos[x] for x in run])
                                     runs += 1
@@ -243,6 +304,7 @@ def _work(args):
                                     break
                 except Exception as e:
                     viol("highlight:%s:%s" % A.exc_signature(e, sys.exc_info()[2]), text, "an excerpt", repr(e)[:200], "")
+    out["secs"] = time.time() - out.pop("t0")
     return out
 
 
@@ -271,7 +333,7 @@ def _covered(text, m, spans):
 def _e2e(ctx):
     from gen import analysis as A
     rng = ctx.rng("texts")
-    n = ctx.budget(40, 400)
+    n = ctx.budget(100, 400)
     texts = [u"alfa bravo charlie", u"The quick brown fox", u"", u" ", u"a", u"x" * 300, u"big-time under_score 3.141 e.g. Wi-Fi"]
     import json
     import os
@@ -282,7 +344,10 @@ def _e2e(ctx):
     texts += [A.gen_text(rng) for _ in range(n)]
     jobs = [("analyzer", name, texts) for name in A.CATALOGUE] + [("field", name, texts) for name in A.BUILTIN_FIELDS]
     results = ctx.pmap(_work, jobs)
+    slow = sorted(((r.get("secs", 0), r["name"]) for r in results), reverse=True)[:3]
+    ctx.note("end-to-end: slowest jobs " + ", ".join("%s %.1fs" % (nm, s) for s, nm in slow))
     for r in results:
+        r.pop("t0", None)
         if "skipped" in r:
             ctx.note("analyzer %s could not be built: %s" % (r["name"], r["skipped"]))
             continue
@@ -301,7 +366,12 @@ def _e2e(ctx):
                 seen[key] = (sig, case, exp, obs, desc)
             ctx.stat("viol:%s:%s" % (r["name"], sig))
         for sig, case, exp, obs, desc in seen.values():
-            ctx.violation(sig + ":" + r["name"], case, exp, obs, desc)
+            if sig.startswith("offsets:") and "length-changing-lowercase" in sig and r["name"].startswith("ngramword"):
+                # one known cause, whatever its symptom (shifted or overrunning offsets) and whichever
+                # of the LowercaseFilter | NgramFilter chains shows it
+                ctx.violation("offsets:length-changing-lowercase:ngram-filter-after-lowercase", case, exp, obs, desc)
+            else:
+                ctx.violation(sig + ":" + r["name"], case, exp, obs, desc)
 
 
 def _corr_work(args):
@@ -353,7 +423,7 @@ def _format_work(cases):
 def _correspondence(ctx):
     from gen import analysis as A
     rng = ctx.rng("corr")
-    n = ctx.budget(120, 2500)
+    n = ctx.budget(300, 2500)
     texts = [u"", u" ", u"a", u"The a.b x", u"a..b .c. d.e.f_g", u"x,y , z,,", u"  lead and trail  "]
     texts += [A.gen_text(rng) for _ in range(n)]
     # the per-character lower-casing of the model is str.lower() except for the final-sigma rule
@@ -373,7 +443,7 @@ def _correspondence(ctx):
             ctx.sample({"analyzer": name, "mode": mode, "removestops": rs, "text": text, "tokens": real}, cap=3)
     # format_fragment
     cases = []
-    for _ in range(ctx.budget(1500, 40000)):
+    for _ in range(ctx.budget(4000, 40000)):
         text = A.gen_text(rng)[:rng.choice((5, 20, 60))]
         k = rng.choice((0, 1, 2, 3, 5))
         spans = []
@@ -400,9 +470,95 @@ def _correspondence(ctx):
             ctx.divergence("format_fragment", {"text": t, "spans": spans, "start": a, "end": b}, got, r)
 
 
+MF_WORDS = ["alfa", "bravo", "charlie", "delta", "echo", "foxtrot", "golf", "hotel", "india", "juliet"]
+
+
+def _mf_work(args):
+    """Worker: multi-field highlighting.  Documents with three stored text fields (one recording
+    characters), queries that ask different words of different fields, search with terms=True and
+    without; in the excerpt of a field only words asked *of that field* may be marked."""
+    seed, ndocs, nqueries = args
+    import random
+    import html
+    import os
+    from whoosh import fields, query, highlight, qparser
+    from whoosh.filedb.filestore import RamStorage
+    rng = random.Random(seed)
+    schema = fields.Schema(id=fields.ID(stored=True), title=fields.TEXT(stored=True),
+                           body=fields.TEXT(stored=True, chars=True), note=fields.KEYWORD(stored=True, lowercase=True))
+    ix = RamStorage().create_index(schema, indexname="c17mf%dx%d" % (os.getpid(), seed))
+    w = ix.writer()
+    docs = []
+    for i in range(ndocs):
+        d = {f: u" ".join(rng.choice(MF_WORDS) for _ in range(rng.randint(2, 7))) for f in ("title", "body", "note")}
+        docs.append(d)
+        w.add_document(id=u"%d" % i, **d)
+    w.commit()
+    out, ncases = [], 0
+    frags = [("context", highlight.ContextFragmenter(maxchars=40, surround=8)),
+             ("pinpoint", highlight.PinpointFragmenter(maxchars=40, surround=8)),
+             ("whole", highlight.WholeFragmenter())]
+    qp = qparser.QueryParser("body", schema)
+    with ix.searcher() as s:
+        for _ in range(nqueries):
+            fs = rng.sample(["title", "body", "note"], rng.choice((2, 2, 3)))
+            words = rng.sample(MF_WORDS, len(fs) + rng.choice((0, 1)))
+            asked = {}
+            parts = []
+            for j, wd in enumerate(words):
+                f = fs[j % len(fs)]
+                asked.setdefault(f, set()).add(wd)
+                parts.append("%s:%s" % (f, wd))
+            text = (" OR " if rng.random() < 0.7 else " ").join(parts)
+            q = qp.parse(text)
+            for terms in (True, False):
+                res = s.search(q, terms=terms, limit=None)
+                for fgn, fg in frags:
+                    res.fragmenter = fg
+                    res.formatter = highlight.HtmlFormatter(between=SEP)
+                    for hit in res:
+                        for f in fs:
+                            ncases += 1
+                            try:
+                                o = hit.highlights(f, top=5)
+                            except Exception as e:
+                                out.append(("highlight-multifield:%s" % type(e).__name__, text, f, fgn, terms, repr(e)[:100]))
+                                continue
+                            marked = [html.unescape(m).lower() for m in
+                                      re.findall(r"<strong class=\"match term\d+\">(.*?)</strong>", o, re.S)]
+                            allowed = asked.get(f, set())
+                            bad = []
+                            for m in marked:
+                                # adjacent matched words are merged into one marked run
+                                if not all(x in allowed for x in m.split()):
+                                    bad.append(m)
+                            if bad:
+                                out.append(("highlight:marks-word-asked-of-another-field", text, f, fgn, terms,
+                                            {"marked": bad, "asked_of_field": sorted(allowed), "excerpt": o[:200],
+                                             "stored": hit[f]}))
+    return ncases, out
+
+
+def _multifield(ctx):
+    jobs = [(ctx.seed * 1000 + i, 12, ctx.budget(6, 60)) for i in range(16)]
+    seen = {}
+    for ncases, out in ctx.pmap(_mf_work, jobs):
+        ctx.stat("multifield-highlight:cases", ncases)
+        ctx.case(("mf", ncases, len(out)), nontrivial=True, n=ncases)
+        for sig, text, f, fgn, terms, obs in out:
+            ctx.stat("viol:" + sig)
+            if sig not in seen or len(text) < len(seen[sig][0]):
+                seen[sig] = (text, f, fgn, terms, obs)
+    for sig, (text, f, fgn, terms, obs) in seen.items():
+        ctx.violation(sig, {"query": text, "field": f, "fragmenter": fgn, "terms": terms},
+                      "only words the query asks of the highlighted field are marked", obs,
+                      "Hit.highlights(field) marks a word that the query asked only of another field")
+
+
 def run(ctx):
     _correspondence(ctx)
     _e2e(ctx)
+    _multifield(ctx)
 
 
 def replay(ctx, rec):
@@ -420,14 +576,20 @@ EXPLANATION = (
     "characters / positions / frequencies and every built-in text field type: index the text, then search by each "
     "own token, by the conjunction of the query-time tokens, by what QueryParser.term_query builds for the text and "
     "its words, by phrases of consecutive positions; check positions and offsets against the source text; highlight "
-    "with every fragmenter x formatter and check the substring and marked-span claims."
+    "with every fragmenter x formatter and check the substring and marked-span claims. Multi-field highlighting: "
+    "documents with title/body/note fields, queries that ask different words of different fields, "
+    "Searcher.search(terms=True/False): an excerpt of one field must not mark a word that was only asked of another."
 )
 ASSUMPTIONS = [
     "characters reach the model classified by Python (\\w, isspace, lower()); the per-character lower() table differs "
     "from str.lower() only by the final-sigma rule (texts with a capital sigma are excluded from the correspondence "
     "stream, not from the end-to-end stream)",
-    "findable is proved against an abstract posting model (term -> positions/characters as word_values records them); "
-    "that the index stores and the matchers read exactly that is C10/C01",
+    "findable is proved against an abstract posting model (term -> positions/characters as word_values records them) and, "
+    "in findable_postings*, against C10's specification of the posting lists under the hypothesis that the posting writer "
+    "receives exactly the analysed tokens; that the matchers turn posting lists into matching documents is C01 and is "
+    "not composed",
+    "index-time and query-time calls use the same removestops flag and no shipped filter but the n-gram ones looks at "
+    "`mode` (built into the model; correspondence-tested, not proved)",
 ]
 TRUSTED = ["Python's re and unicodedata (character classes), str.lower/strip"]
 
